@@ -177,10 +177,10 @@ type vtDir struct {
 	firstSeg []chan struct{}
 	parked   []*msgs.DataTransmissionMessage // segments held back (see vtXfer.After)
 	ended    map[uint64]bool                 // transfers whose END segment went to the peer
-	fwd      int // segments handed to the peer
-	acked    int // acknowledgements seen coming back from the peer (forwarded or dropped)
-	ends     int // END segments handed to the peer
-	handed   int // bundles / errors the peer handed up
+	fwd      int                             // segments handed to the peer
+	acked    int                             // acknowledgements seen coming back from the peer (forwarded or dropped)
+	ends     int                             // END segments handed to the peer
+	handed   int                             // bundles / errors the peer handed up
 }
 
 func (d *vtDir) log(e vtEvent) { d.ev = append(d.ev, e) }
@@ -280,11 +280,13 @@ func vtRun(sc vtScenario) (traces []vhRec, problem string) {
 							queue = append(queue, d.parked...) // transfers waiting for this one go on
 							d.parked = nil
 							d.mu.Unlock()
-							// the refusal travels like an acknowledgement: into the sender's input
+							// the refusal travels like an acknowledgement: into the sender's input; every reason code of RFC 9174 in turn
+							// (whatever the reason, the peer did not get the transfer's end through this session)
+							reason := msgs.TransferRefusalCode((id + uint64(n) + uint64(len(xfers[name]))) % 7)
 							if name == "ab" {
-								aIn <- msgs.NewTransferRefusalMessage(msgs.RefusalNoResources, id)
+								aIn <- msgs.NewTransferRefusalMessage(reason, id)
 							} else {
-								bIn <- msgs.NewTransferRefusalMessage(msgs.RefusalNoResources, id)
+								bIn <- msgs.NewTransferRefusalMessage(reason, id)
 							}
 						case faulty && x.Fault == "close":
 							for i := range xfers[name] {
